@@ -43,7 +43,7 @@ SubstAllowed(s, L) ==
 TxAfterStart(s, L, wl) ==
   IF L.k = "ru" THEN s
   ELSE IF L.k = "bc" THEN [s EXCEPT !.prev = Broadcast, !.run = 0]
-  ELSE IF wl = "ru" THEN [s EXCEPT !.run = s.run + 1]
+  ELSE IF wl = "ru" THEN [s EXCEPT !.run = IF s.max = 0 THEN 0 ELSE s.run + 1]   \* only counted against a configured maximum
   ELSE [s EXCEPT !.prev = L, !.run = 0]
 
 TxCfg(s, op, n) ==
